@@ -35,9 +35,11 @@ Proof. intros e rest Hw Hf Hs. apply roundtrip_general_l; auto using spec_total_
 (* former finding C02-eq-rel-same-level, now positive: every equality operator binds looser than every
    relational operator, on either side; the former witness 3 == 3 > 0 is 3 == (3 > 0) = 0 *)
 Lemma spec_grouping_l : forall oe orl x y z, is_eq oe = true -> is_rel orl = true ->
-  (exists fuel, p_assign spec_table fuel [TId x; TOp oe; TId y; TOp orl; TId z] =
+  (safeb [TId x; TOp oe; TId y; TOp orl; TId z] = true ->
+   exists fuel, p_assign spec_table fuel [TId x; TOp oe; TId y; TOp orl; TId z] =
                 Ok (Bin oe (Var x) (Bin orl (Var y) (Var z)), [])) /\
-  (exists fuel, p_assign spec_table fuel [TId x; TOp orl; TId y; TOp oe; TId z] =
+  (safeb [TId x; TOp orl; TId y; TOp oe; TId z] = true ->
+   exists fuel, p_assign spec_table fuel [TId x; TOp orl; TId y; TOp oe; TId z] =
                 Ok (Bin oe (Bin orl (Var x) (Var y)) (Var z), [])).
 Proof.
   intros oe orl x y z He Hr. apply higher_level_binds_tighter_l; [exact spec_total_l|].
@@ -52,41 +54,103 @@ Lemma spec_witness_l :
     Ok (Bin GtO (Bin EqO (Num 3) (Num 3)) (Num 0), []).
 Proof. repeat split. Qed.
 
-(* former finding C02-paren-ident-cast, now positive: the former witnesses (a) - 1 and (a[1]) - 1 *)
+(* identifiers of the four classes used in the examples: lower-case a b c d, upper-case N M (no type),
+   a lower-case and an upper-case declared type name *)
+Definition ia := 4. Definition ib := 8. Definition ic := 12. Definition id_ := 16.
+Definition iN := 21. Definition iM := 25. Definition it_ := 30. Definition iT := 35.
+Lemma id_classes_l :
+  (id_upper ia, id_type ia) = (false, false) /\ (id_upper iN, id_type iN) = (true, false) /\
+  (id_upper it_, id_type it_) = (false, true) /\ (id_upper iT, id_type iT) = (true, true) /\
+  is_sizeof 0 = true /\ is_sizeof ia = false.
+Proof. repeat split. Qed.
+
+(* former finding C02-paren-ident-cast, now positive: the former witnesses (a) - 1 and (a[1]) - 1, and the
+   same with an upper-case name that is no type (the spelling of a name does not make it a type) *)
 Lemma paren_identifier_l :
-  parse pinned_table (pr pinned_table 0 (Bin Sub (Par (Var 0)) (Num 1))) = Ok (Bin Sub (Var 0) (Num 1), []) /\
-  pr pinned_table 0 (Bin Sub (Par (Var 0)) (Num 1)) = [TLP; TId 0; TRP; TOp Sub; TNum 1] /\
-  parse pinned_table [TLP; TId 0; TLB; TNum 1; TRB; TRP; TOp Sub; TNum 1] =
-    Ok (Bin Sub (Idx (Var 0) (Num 1)) (Num 1), []) /\
-  parse pinned_table [TLP; TLP; TId 0; TRP; TOp Mul; TNum 2; TRP] = Ok (Bin Mul (Var 0) (Num 2), []).
+  parse pinned_table (pr pinned_table 0 (Bin Sub (Par (Var ia)) (Num 1))) = Ok (Bin Sub (Var ia) (Num 1), []) /\
+  pr pinned_table 0 (Bin Sub (Par (Var ia)) (Num 1)) = [TLP; TId ia; TRP; TOp Sub; TNum 1] /\
+  parse pinned_table [TLP; TId ia; TLB; TNum 1; TRB; TRP; TOp Sub; TNum 1] =
+    Ok (Bin Sub (Idx (Var ia) (Num 1)) (Num 1), []) /\
+  parse pinned_table [TLP; TLP; TId ia; TRP; TOp Mul; TNum 2; TRP] = Ok (Bin Mul (Var ia) (Num 2), []) /\
+  parse pinned_table [TLP; TId iN; TRP; TOp Sub; TNum 1] = Ok (Bin Sub (Var iN) (Num 1), []) /\
+  parse pinned_table [TNum 100; TOp Sub; TLP; TId iN; TRP; TOp Sub; TNum 1] =
+    Ok (Bin Sub (Bin Sub (Num 100) (Var iN)) (Num 1), []).
 Proof. repeat split. Qed.
 
 (* C02-generic-lookahead, the part that is still there: a < b > (c & d), minimal parentheses, no explicit
    pair, is taken for the generic call a<b>(c & d) *)
 Lemma roundtrip_min_refuted_generic_l :
   exists e, wf e = true /\ nopar e = true /\
-    pr pinned_table 0 e = [TId 0; TOp LtO; TId 1; TOp GtO; TLP; TId 2; TOp BAnd; TId 3; TRP] /\
-    parse pinned_table (pr pinned_table 0 e) = Ok (Generic 1 (Call 0 [Bin BAnd (Var 2) (Var 3)]), []) /\
+    pr pinned_table 0 e = [TId ia; TOp LtO; TId ib; TOp GtO; TLP; TId ic; TOp BAnd; TId id_; TRP] /\
+    parse pinned_table (pr pinned_table 0 e) = Ok (Generic 1 (Call ia [Bin BAnd (Var ic) (Var id_)]), []) /\
     safeb (pr pinned_table 0 e) = false.
 Proof.
-  exists (Bin GtO (Bin LtO (Var 0) (Var 1)) (Bin BAnd (Var 2) (Var 3))). repeat split.
+  exists (Bin GtO (Bin LtO (Var ia) (Var ib)) (Bin BAnd (Var ic) (Var id_))). repeat split.
 Qed.
+
+(* C02-upper-ident-lt: an upper-case variable before `<` is taken for a generic type name: N < 5 is a
+   parse error, N < M > - 1 silently parses as N - 1, while (N) < 5 is the comparison *)
+Lemma roundtrip_min_refuted_upper_lt_l :
+  wf (Bin LtO (Var iN) (Num 5)) = true /\
+  parse pinned_table (pr pinned_table 0 (Bin LtO (Var iN) (Num 5)) ++ [TRP; TSemi]) = Err /\
+  parse pinned_table (pr pinned_table 0 (Bin LtO (Par (Var iN)) (Num 5)) ++ [TRP; TSemi]) =
+    Ok (Bin LtO (Var iN) (Num 5), [TRP; TSemi]) /\
+  pr pinned_table 0 (Bin GtO (Bin LtO (Var iN) (Var iM)) (Un Neg (Num 1))) =
+    [TId iN; TOp LtO; TId iM; TOp GtO; TOp Sub; TNum 1] /\
+  parse pinned_table [TId iN; TOp LtO; TId iM; TOp GtO; TOp Sub; TNum 1] = Ok (Bin Sub (Var iN) (Num 1), []) /\
+  safeb [TId iN; TOp LtO; TNum 5] = false.
+Proof. repeat split. Qed.
+
+(* C02-sizeof-upper-ident: sizeof(N) takes an upper-case variable for a type name, sizeof((N)) does not *)
+Lemma roundtrip_refuted_sizeof_upper_l :
+  wf (Call 0 [Var iN]) = true /\
+  parse pinned_table (pr pinned_table 0 (Call 0 [Var iN])) = Ok (SizeofT, []) /\
+  parse pinned_table (pr pinned_table 0 (Call 0 [Par (Var iN)])) = Ok (Call 0 [Var iN], []) /\
+  parse pinned_table (pr pinned_table 0 (Call 0 [Bin Add (Var iN) (Num 1)])) = Err /\
+  safeb (pr pinned_table 0 (Call 0 [Var iN])) = false.
+Proof. repeat split. Qed.
+
+(* C02-type-named-variable-cast: a variable that shares its name with a declared type, alone in
+   parentheses before a token that can start a unary expression, is a cast *)
+Lemma roundtrip_refuted_type_named_l :
+  wf (Bin Sub (Par (Var iT)) (Num 1)) = true /\
+  parse pinned_table (pr pinned_table 0 (Bin Sub (Par (Var iT)) (Num 1))) = Ok (Cast [TId iT] (Un Neg (Num 1)), []) /\
+  parse pinned_table (pr pinned_table 0 (Bin Sub (Var iT) (Num 1))) = Ok (Bin Sub (Var iT) (Num 1), []) /\
+  parse pinned_table (pr pinned_table 0 (Bin Sub (Par (Var it_)) (Num 1))) = Ok (Cast [TId it_] (Un Neg (Num 1)), []) /\
+  safeb (pr pinned_table 0 (Bin Sub (Par (Var iT)) (Num 1))) = false /\
+  (* ... but not as a call argument or when the parenthesis holds more than the name *)
+  safeb (pr pinned_table 0 (Bin Sub (Call ia [Var iT]) (Num 1))) = true /\
+  safeb (pr pinned_table 0 (Bin Sub (Par (Bin Add (Var iT) (Num 0))) (Num 1))) = true.
+Proof. repeat split. Qed.
+
+(* casts to keyword types bind like prefix operators: (int) a * b = ((int) a) * b, (int) - a = (int) (- a),
+   - (int) a [1] = - ((int) (a[1])) *)
+Lemma cast_binds_like_unary_l :
+  parse pinned_table [TLP; TKw 0; TRP; TId ia; TOp Mul; TId ib] = Ok (Bin Mul (Cast [TKw 0] (Var ia)) (Var ib), []) /\
+  parse pinned_table [TLP; TKw 0; TRP; TOp Sub; TId ia] = Ok (Cast [TKw 0] (Un Neg (Var ia)), []) /\
+  parse pinned_table [TOp Sub; TLP; TKw 1; TOp Mul; TRP; TId ia; TLB; TNum 1; TRB] =
+    Ok (Un Neg (Cast [TKw 1; TOp Mul] (Idx (Var ia) (Num 1))), []).
+Proof. repeat split. Qed.
 
 (* ... while the look-ahead now gives up at ; ( ) { } = + - && ||: a < b + 1 > (c) and a statement
    boundary are comparisons again *)
 Lemma generic_lookahead_bounded_l :
-  parse pinned_table [TId 0; TOp LtO; TId 1; TOp Add; TNum 1; TOp GtO; TLP; TId 2; TRP] =
-    Ok (Bin GtO (Bin LtO (Var 0) (Bin Add (Var 1) (Num 1))) (Var 2), []) /\
-  generic_scan 1 [TId 1; TRP; TSemi; TOther; TLP; TId 1; TOp GtO; TLP; TId 0; TRP] = false.
+  parse pinned_table [TId ia; TOp LtO; TId ib; TOp Add; TNum 1; TOp GtO; TLP; TId ic; TRP] =
+    Ok (Bin GtO (Bin LtO (Var ia) (Bin Add (Var ib) (Num 1))) (Var ic), []) /\
+  generic_scan 1 [TId ib; TRP; TSemi; TOther; TLP; TId ib; TOp GtO; TLP; TId ia; TRP] = false.
 Proof. split; reflexivity. Qed.
 
 (* hypotheses of the round trip are satisfiable, and the fuel of [parse] is enough, on a stream
-   that exercises every construct *)
+   that exercises every construct (identifiers of all four classes, method calls, sizeof, casts) *)
 Definition sample : expr :=
-  Asg (Some Add) (Idx (Var 0) (Bin Add (Var 1) (Num 1)))
-      (Tern (Bin Or (Bin LtO (Par (Var 2)) (Num 3)) (Un Not (Var 3)))
-            (Bin Mul (Par (Bin Sub (Var 0) (Un Neg (Post true (Var 1))))) (Call 5 [Var 2; Bin Shl (Num 1) (Num 2)]))
-            (Tern (Bin EqO (Var 1) (Bin GeO (Var 2) (Var 3))) (Mem (Arrow (Var 4) 10) 11) (Pre false (Par (Idx (Var 0) (Num 0)))))).
+  Asg (Some Add) (Idx (Var ia) (Bin Add (Var iN) (Num 1)))
+      (Tern (Bin Or (Bin LeO (Par (Var iN)) (Num 3)) (Un Not (Var iT)))
+            (Bin Mul (Par (Bin Sub (Par (Var iM)) (Un Neg (Post true (Var ib)))))
+                     (Call 20 [Var ic; Bin Shl (Num 1) (Call 0 [Var ia])]))
+            (Tern (Bin EqO (Var ib) (Bin GeO (Par (Bin Add (Var it_) (Num 0))) (Var id_)))
+                  (Mem (Arrow (Var 40) 44) 49)
+                  (Bin Sub (Cast [TKw 0; TOp Mul] (MCall false (Par (Var iN)) 52 [Var iT; Par (Var iN)]))
+                           (Pre false (Par (Idx (Var ia) (Num 0))))))).
 
 Lemma sample_roundtrip_l :
   wf sample = true /\ folb pinned_table 0 [TRP; TSemi] = true /\
@@ -131,3 +195,18 @@ Definition structure_ok (shape : list (string * string * string * string)) (tern
   (generic_bound =? scan_bound)%nat &&
   cast_guard &&
   (List.length shape =? List.length t)%nat.
+
+(* what Model.v assumes about the two look-aheads of parsePrimary and about parsePostfix:
+   `( identifier` is a type exactly for the five declaration maps (plus the type-parameter loop): three
+   assignments to may_be_type in all - a fourth would be a further rule, e.g. one on the spelling of the
+   name; the spelling is tested (std::isupper) in exactly two places, the sizeof operand and `Name<`
+   ([sizeof_type_start], [name_skip]); a cast operand is parsed by parseUnary; a cast type starts with
+   one of the ten keyword types (TOK_CHAR, the char literal, is in the list of the code but parseType
+   rejects it) or an identifier; parsePostfix tests ( [ . -> and ++ (with --) *)
+Definition primary_ok (maps : list string) (assigns isupper : nat) (operand : string) (starts postfix : list string) : bool :=
+  list_string_eqb maps ["enum_definitions_"; "interface_definitions_"; "struct_definitions_"; "typedef_map_";
+                        "union_definitions_"] &&
+  (assigns =? 3)%nat && (isupper =? 2)%nat && String.eqb operand "parseUnary" &&
+  list_string_eqb starts ["TOK_BOOL"; "TOK_CHAR"; "TOK_CHAR_TYPE"; "TOK_DOUBLE"; "TOK_FLOAT"; "TOK_IDENTIFIER"; "TOK_INT";
+                          "TOK_LONG"; "TOK_SHORT"; "TOK_STRING_TYPE"; "TOK_TINY"; "TOK_VOID"] &&
+  list_string_eqb postfix ["TOK_ARROW"; "TOK_DOT"; "TOK_INCR"; "TOK_LBRACKET"; "TOK_LPAREN"].
